@@ -13,7 +13,7 @@ use crate::{
             },
         },
         format::format_date_part,
-        parse::{parse_date_part, parse_format_string, ParseUnit, ParsedDate},
+        parse::{parse_date_part, parse_format_string, remove_part, ParseUnit, ParsedDate},
     },
     DateTime, DateUtilities,
 };
@@ -99,13 +99,15 @@ impl Date {
         for part in parts {
             // Escaped apostrophes
             if part.starts_with('\u{0000}') {
-                string.replace_range(0..part.len(), "");
+                remove_part(part.chars().count(), &mut string)?;
                 continue;
             }
 
             // Escaped parts
             if part.starts_with('\'') {
-                string.replace_range(0..part.len() - if part.ends_with('\'') { 2 } else { 1 }, "");
+                let text = part.strip_prefix('\'').unwrap_or(&part);
+                let text = text.strip_suffix('\'').unwrap_or(text);
+                remove_part(text.chars().count(), &mut string)?;
                 continue;
             }
 
